@@ -118,6 +118,10 @@ def api_facts(summary, exact_names=False):
                 facts.setdefault(("model-fields",), []).append([(x["name"], x["type"]) for x in st["fields"]])
             else:
                 facts[("struct", st["name"])] = [(x["name"], x["type"]) for x in st["fields"]]
+        if fname.endswith("models.go"):
+            # named non-struct types (enums) and their constants: no emit option renames them
+            facts[("enum-types",)] = sorted((x["name"], x["type"]) for x in f.get("named", []))
+            facts[("enum-consts",)] = sorted((c["name"], c["type"], c["value"]) for c in f.get("consts", []))
     if ("model-fields",) in facts:
         facts[("model-fields",)] = sorted(facts[("model-fields",)])
     return facts
@@ -132,7 +136,13 @@ def run(tier, seed):
     flagsets = [tuple(f for f, b in zip(FLAGS, bits) if b) for bits in itertools.product([0, 1], repeat=6)]
     fixed = [("CREATE TABLE a (id int PRIMARY KEY, name text);\nCREATE TABLE b (id int PRIMARY KEY, name text);\nCREATE TABLE c (id int PRIMARY KEY, count int);\n",
               "-- name: Triple :many\nSELECT a.id, b.id, c.id, a.name, b.name FROM a, b, c WHERE a.id = $1 AND b.id = $2 AND c.id = $3 AND a.name = $4;\n\n"
-              "-- name: Counts :one\nSELECT count(*), count(*), c.count FROM c;\n")]
+              "-- name: Counts :one\nSELECT count(*), count(*), c.count FROM c;\n"),
+             # enum types with plural names: emit_exact_table_names is about TABLE model names, enum type names must not move
+             ("CREATE TYPE order_states AS ENUM ('new', 'done');\nCREATE TYPE moods AS ENUM ('ok', 'sad');\nCREATE TYPE statuses AS ENUM ('a');\n"
+              "CREATE TABLE orders (id int PRIMARY KEY, state order_states NOT NULL, mood moods, st statuses[]);\n",
+              "-- name: SetState :exec\nUPDATE orders SET state = $1 WHERE id = $2;\n\n"
+              "-- name: ByMood :many\nSELECT id, state, st FROM orders WHERE mood = $1;\n\n"
+              "-- name: OneMood :one\nSELECT mood FROM orders WHERE id = $1;\n")]
     for inp in range(n_inputs):
         schema, queries = fixed[inp] if inp < len(fixed) else inputs(rng)
         ov = [{"go_type": "example.com/x.ID", "db_type": "uuid"}] if rng.random() < 0.4 else None
